@@ -14,7 +14,7 @@ use vpmodel::spec::{mono, ChainSpec};
 pub const DEF: PropDef = PropDef {
     id: "C04",
     level: "exploration",
-    rule: "an active chain plus generated extra index records: header-only records (status VALID_TREE, no file fields) at occupied heights and beyond the tip, never-connected stale siblings with data (status 3|8), failed blocks (3|8|32, 5|8|16|64) and reorged-out branches of length 1..3 (status 29) at occupied heights below the tip; each competitor's hash is steered (nonce search) to sort before or after the active block's hash as LevelDB key. csvdump/unspentcsvdump/balances output must equal the reference model of the ACTIVE chain. Open finding D7 (known_findings.json): when the output instead equals, exactly, the prediction 'per height the data-bearing record with the greatest key wins', the case is reported as KNOWN-FINDING; any other deviation is a violation. Non-trivial = at least one data-bearing competitor or header-only record at an occupied height; distinct by (extras multiset, key-order pattern).",
+    rule: "an active chain plus generated extra index records: header-only records (status VALID_TREE or VALID_HEADER, optionally with FAILED_VALID / FAILED_CHILD / OPT_WITNESS bits; no file fields) at occupied heights and beyond the tip, never-connected stale siblings with data (status 3|8), failed blocks (3|8|32, 5|8|16|64) and reorged-out branches of length 1..3 (status 29) at occupied heights below the tip; each competitor's hash is steered (nonce search) to sort before or after the active block's hash as LevelDB key. csvdump/unspentcsvdump/balances output must equal the reference model of the ACTIVE chain. Open finding D7 (known_findings.json): when the output instead equals, exactly, the prediction 'per height the data-bearing record with the greatest key wins', the case is reported as KNOWN-FINDING; any other deviation is a violation. Non-trivial = at least one data-bearing competitor or header-only record at an occupied height; distinct by (extras multiset, key-order pattern).",
     assumptions: &["steady-state index: the active tip is strictly higher than every other record of validity VALID_SCRIPTS", "header-only records carry a header whose version bytes terminate the two VarInts the tool reads past the record fields (true of real headers)"],
     run,
     replay,
@@ -113,7 +113,10 @@ pub fn check(c: &Case) -> Verdict {
                 b.prev = prev;
                 b.version = [1u32, 2, 4, 0x2000_0000, 0x3fff_e000][k % 5];
                 b.nonce = b.nonce.wrapping_add(0x1000 + k as u32);
-                let mut r = rec_for(&b, height, VALID_TREE);
+                // header-only statuses a node really stores: plain VALID_TREE / VALID_HEADER, and the same
+                // with FAILED_VALID / FAILED_CHILD (headers of a rejected branch) or OPT_WITNESS
+                let st = [VALID_TREE, 1, VALID_TREE | FAILED_CHILD, VALID_TREE | FAILED_VALID, 1 | FAILED_CHILD, VALID_TREE | 128, VALID_TREE, VALID_TREE | FAILED_CHILD | 128][(e.at as usize + k) % 8];
+                let mut r = rec_for(&b, height, st);
                 r.ntx = 0;
                 plan.recs.push(r);
                 pattern.push(format!("H{}", if e.beyond > 0 { "+" } else { "=" }));
